@@ -258,7 +258,6 @@ func c06body(c c06cfg) func(x *vsched.Exec) {
 	}
 }
 
-
 type c06countMap struct {
 	c06map
 	sets *int
